@@ -6,10 +6,12 @@
 //! manager and a direct look at the locks.
 //!
 //! `lock <files> <requests>`
-//!   files     `stem:parent:members:uses:flags,…`   (wsutil::parse_files)
+//!   files     `stem:parent:members:uses:flags,…`   (wsutil::parse_files; the uses list may name entities without a
+//!             file at any position; flags also say what stands above the header and how the file is encoded)
 //!   requests  `kind@file,…` in execution order; kinds: `diag` (document diagnostics),
 //!             `def` (goto definition at every probe position), `comp` (completion),
-//!             `hier` (prepare + subtypes + supertypes for the class and every member),
+//!             `hier` (prepare + subtypes + supertypes for the class and every member; prepare also on the names that
+//!             resolve to nothing: entities without a file, undeclared names),
 //!             `hierx` (sub/supertypes for a member item whose name no class declares)
 //!
 //! output (one line): `r:<req>=completes|deadlocks|spins|panic …` in order; after a request
@@ -163,6 +165,14 @@ fn do_request(pm: &ProjectManager, kind: &str, f: &MFile, limit: Duration) -> Ou
             let mut pos: Vec<(usize, usize)> = Vec::new();
             pos.extend(f.class_pos.iter());
             pos.extend(f.member_pos.iter().map(|m| m.1));
+            // names that resolve to nothing — `prepare` looks them up in the class, its parents and every used entity:
+            // entities that have no file (in the uses line and as the type of a local), undeclared names, and a local
+            pos.extend(
+                f.probes
+                    .iter()
+                    .filter(|p| p.0.starts_with("uses-ghost") || p.0.starts_with("ghost-type") || p.0 == "missing-name" || p.0 == "self-missing-member" || p.0 == "local")
+                    .map(|p| p.1),
+            );
             for (l, c) in pos {
                 if let Ok(items) = pm.prepare_type_hierarchy(&f.uri, &Position::new(l, c)) {
                     for it in items {
